@@ -106,6 +106,16 @@ def one_case(rng, tmp):
     impl = {}
     with warnings.catch_warnings():
         warnings.simplefilter('ignore')
+        # another database with the SAME dataset / alias names but different examples is alive (its datasets too):
+        # every database must answer from its own description
+        decoy_alive = []
+        try:
+            decoy_descs = [{'datasets': {nm: {'decoy_' + nm: {'v': -1, 'w': [9]}} for nm in d['datasets']},
+                            **({'alias': copy.deepcopy(d['alias'])} if 'alias' in d else {})} for d in pristine]
+            decoy = DictDatabase(*decoy_descs)
+            decoy_alive = [decoy.get_dataset(nm) for nm in list(decoy.dataset_names)]
+        except BaseException:  # noqa  (descriptions that do not merge)
+            pass
         try:
             db = DictDatabase(*descs) if rng.random() < 0.5 else DictDatabase(descs)
             impl['merge'] = 'ok'
@@ -188,6 +198,7 @@ def one_case(rng, tmp):
                 want = [[k, [[f, canon(v)] for f, v in {**ex, 'example_id': k, 'dataset': r}.items()]] for k, ex in merged[r].items()]
                 if a['ok'] != want:
                     fails.append(('examples_once_in_order', {'name': r, 'got': a['ok'], 'want': want}))
+    del decoy_alive
     req = {'fam': 'db', 'descs': [to_model(d) for d in pristine], 'requests': reqs}
     return req, impl, fails
 
